@@ -143,7 +143,17 @@ class BoundedStream(io.IOBase):
 
         """
 
-        return self._read(hint, self.stream.readlines)
+        lines: List[bytes] = []
+        total = 0
+        while True:
+            line = self.readline()
+            if not line:
+                break
+            lines.append(line)
+            total += len(line)
+            if hint is not None and 0 < hint <= total:
+                break
+        return lines
 
     def write(self, data: bytes) -> None:
         """Raise IOError always; writing is not supported."""
